@@ -106,6 +106,12 @@ def run_deductive(ctx):
 def run(ctx):
     mod = extract.load(MOD)
     real = mod.real()
+    # every line of a copyright / license text is dumped as a continuation line of a Deb822 paragraph: the reader must never
+    # take such a line for an armor line or a paragraph separator (same lemmas as C08, on the patterns of debian.deb822)
+    from props import C08 as _c08
+    _c08.armor_lemmas(ctx, extract.load("debian.deb822").real(), tag="R-17d")
+    from props import C02 as _c02
+    _c02.verify_split_gpg(ctx, extract.load("debian.deb822").real())
     for q in ("format_multiline_lines", "parse_multiline_as_lines", "License.from_str", "License.to_str", "_SpaceSeparated.from_str",
               "_SpaceSeparated.to_str", "_LineBased.from_str", "_LineBased.to_str", "Copyright.__init__", "Copyright.dump"):
         node, _ = mod.lookup(q)
@@ -187,7 +193,8 @@ def run(ctx):
     ctx.level = "other"
     ctx.explanation = ("PROVED from the AST: format_multiline_lines(lines) == '\\n'.join of the per-line encoding fmt_line (loop invariant); "
                        "LEMMA (all lines): decoding an encoded line gives the line back whenever it is not whitespace-only and not a "
-                       "lone '.', and every encoded continuation line starts with a blank. NOT proved: parse_multiline_as_lines (in-place "
+                       "lone '.', and every encoded continuation line starts with a blank; a continuation line is never taken for a "
+                       "PGP armor line or a paragraph separator by the patterns of split_gpg_and_payload (SMT on the real patterns); split_gpg_and_payload, from its real AST, returns exactly the lines (CR / LF stripped) as payload - nothing taken for armor, nothing cut off - for every sequence of lines none of which matches the armor pattern or the separator pattern in force (loop invariant over the line index; both parser settings). NOT proved: parse_multiline_as_lines (in-place "
                        "update while iterating), the join/splitlines law, License / paragraph classes - BOUNDED part (see module docstring).")
     ctx.assumptions += ["the single empty line list [''] is outside the domain of the codec clause (it encodes to '' which decodes to [])",
                         "lines contain no line-boundary characters"]
